@@ -222,6 +222,22 @@ func cmdCheck(args []string) int {
 		for _, f := range funcs {
 			have[f.u.Pkg.PkgPath+"\x00"+f.name] = true
 		}
+		// callers: a function under contract that calls one of the property's
+		// functions (one level up) carries the property too - the caller can
+		// break what the callee guarantees (start it with `go` and not wait,
+		// hand it another table, ...)
+		var callers []struct {
+			u    *Unit
+			name string
+		}
+		orig := map[string]bool{}
+		for _, f := range funcs {
+			base := f.name
+			if i := strings.Index(base, "#"); i >= 0 {
+				base = base[:i]
+			}
+			orig[f.u.Pkg.PkgPath+"\x00"+base] = true
+		}
 		frontier := funcs
 		for depth := 0; depth < 2; depth++ {
 			var next []struct {
@@ -285,6 +301,61 @@ func cmdCheck(args []string) int {
 			}
 			frontier = next
 		}
+		var unitNames []string
+		for pth := range w.Units {
+			unitNames = append(unitNames, pth)
+		}
+		sort.Strings(unitNames)
+		for _, pth := range unitNames {
+			cu := w.Units[pth]
+			if cu.Specs == nil {
+				continue
+			}
+			for _, cand := range cu.Specs.Funcs {
+				if cand.Trusted || have[cu.Pkg.PkgPath+"\x00"+cand.Name] {
+					continue
+				}
+				base := cand.Name
+				if i := strings.Index(base, "#"); i >= 0 {
+					base = base[:i]
+				}
+				fd := cu.Funcs[base]
+				if fd == nil || fd.Body == nil {
+					continue
+				}
+				info := cu.Pkg.TypesInfo
+				callsOrig := false
+				ast.Inspect(fd.Body, func(x ast.Node) bool {
+					call, ok := x.(*ast.CallExpr)
+					if !ok || callsOrig {
+						return !callsOrig
+					}
+					var obj types.Object
+					switch fn := ast.Unparen(call.Fun).(type) {
+					case *ast.Ident:
+						obj = info.Uses[fn]
+					case *ast.SelectorExpr:
+						obj = info.Uses[fn.Sel]
+					}
+					if tf, ok := obj.(*types.Func); ok && tf.Pkg() != nil {
+						key := calleeKey(tf)
+						if tf.Pkg().Path() == cu.Pkg.PkgPath && orig[tf.Pkg().Path()+"\x00"+key[strings.Index(key, ".")+1:]] {
+							callsOrig = true
+						}
+					}
+					return true
+				})
+				if callsOrig {
+					have[cu.Pkg.PkgPath+"\x00"+cand.Name] = true
+					helper[cu.Short+"."+cand.Name] = true
+					callers = append(callers, struct {
+						u    *Unit
+						name string
+					}{cu, cand.Name})
+				}
+			}
+		}
+		funcs = append(funcs, callers...)
 	}
 	kfs := loadKnownFindings()
 	var exs []*Exec
